@@ -255,3 +255,31 @@ is_import_stmt = declare_pred("is_import_stmt", L.V, L.B)      # isinstance(node
 _TY.ISINSTANCE["libcst.Import"] = lambda ip, o: is_import_stmt(as_v(o))
 R.ATTRS[("Gatherer", "context")] = lambda ip, r: ZV(L.fn("gatherer_context", L.V, L.V)(r.term), "CodemodContext")
 R.ATTRS[("CodemodContext", "full_package_name")] = lambda ip, r: ZV(L.fn("ctx_package", L.V, L.V)(r.term), "Opt[str]")
+
+# ---- MoveImportsToTypeCheckingBlockVisitor.transform_module_impl: the context scratch, the two libcst-backed helper steps
+mover_stored = L.fn("mover_stored", L.V, L.V)              # self.context.scratch.get(CONTEXT_KEY): None or the 1-tuple (items,) that store_imports_in_context put there
+with_tc_import = L.fn("cst_with_tc_import", L.V, L.V)      # _add_type_checking_import(tree): AddImportsVisitor for `from __future__ import annotations` and `from typing import TYPE_CHECKING`
+removed = L.fn("cst_removed", L.V, L.V, L.V)               # _remove_imports(tree): tree.visit(RemoveImportsTransformer(items)) - per node: leave_Import / leave_ImportFrom (proved)
+R.ATTRS[("CodemodContext", "scratch")] = lambda ip, r: ZV(r.term, "Scratch")
+
+
+def _scratch_get(ip, r, a_, kw, node):
+    # the only key this class reads is its own CONTEXT_KEY
+    owner = L.fn("context_owner", L.V, L.V)(r.term)
+    return ZV(mover_stored(owner), "Opt[seq]")
+
+
+R.METHODS[("Scratch", "get")] = _scratch_get
+L.axiom(T, "mover-context-owner", L.FA(_g, L.fn("context_owner", L.V, L.V)(L.fn("mover_context", L.V, L.V)(_g)) == _g, [L.fn("mover_context", L.V, L.V)(_g)]))
+R.METHODS[("Mover", "_add_type_checking_import")] = lambda ip, r, a_, kw, node: ZV(with_tc_import(as_v(a_[0])), "CstModule")
+
+
+def _remove_imports(ip, r, a_, kw, node):
+    items = z3.Select(ip.heap_array("Mover.import_items_to_be_moved"), r.term)
+    return ZV(removed(as_v(a_[0]), items), "CstModule")
+
+
+R.METHODS[("Mover", "_remove_imports")] = _remove_imports
+for _n, _f in (("cst_with_tc_import", with_tc_import), ("cst_removed", removed), ("mover_stored", mover_stored)):
+    R.SPEC[_n] = SpecFn((lambda f_: lambda ip, a_, kw: ZV(f_(*[as_v(v) for v in a_]), "CstModule" if f_ is not mover_stored else "Opt[seq]"))(_f), _n)
+R.EXTERNALS["monkeytype.type_checking_imports_transformer:MoveImportsToTypeCheckingBlockVisitor.CONTEXT_KEY"] = ZV(L.atom("mover", "CONTEXT_KEY"), "str")
